@@ -14,4 +14,10 @@ Tol_view_commute     == -12000  \* value at a position: grid vs points/crop/subs
 Tol_tm_sphere        == -5000   \* Tmatrix(sphere) vs far-field Mie, fields and S (measured <= 1.2e-6)
 Tol_tm_identity      == -10000  \* same particle, different angle representation (measured <= 1e-15)
 Tol_tm_symmetry      == -5500   \* mirror / rotation covariance of tilted particles (measured <= 3e-7)
+Tol_layers           == -9000   \* layered-sphere description vs normal form (measured 1e-12)
+Tol_S_mie            == -6000   \* Lorenz-Mie S vs textbook, x < 50 (single-precision constants: ~2e-8)
+Tol_S_mie_big        == -4000   \* x >= 50: default continued-fraction tolerance (measured 1e-5)
+Tol_S_pyseries       == -5500   \* pure-Python series, documented ~1e-6
+Tol_mie_multisphere_default == -2000  \* default cluster-solver truncation qeps1=1e-5 (measured up to 3.9e-3 at x=23)
+Tol_mie_multisphere_tight   == -4000  \* with eps=1e-12, qeps1=1e-9, qeps2=1e-12 (measured <= 9.2e-6)
 =============================================================================
